@@ -894,9 +894,10 @@ from . import speclang
 # condition is checked on the code the real compiler emits for a family of functions that put a struct / array value at
 # each kind of transfer point; pointer-typed operands (negative controls) must NOT be required to be copies.
 class VCase:
-    def __init__(self, name, gosrc, sinks=(), locals_=(), note='', check=None, ctor_args=None, methods=(), box=False):
+    def __init__(self, name, gosrc, sinks=(), locals_=(), note='', check=None, ctor_args=None, methods=(), box=False, table=None):
         self.name, self.gosrc, self.sinks, self.locals, self.note = name, gosrc, tuple(sinks), tuple(locals_), note
         self.box = box            # the function returns its value-typed operand boxed into an interface
+        self.table = table        # (type, method): the case is the function assigned to <type>.prototype.<method> in the emitted package
         self.ctor_args, self.methods = ctor_args, tuple(methods)   # (constructor name, value-typed argument indexes); value-receiver methods
         self.check = check        # (JavaScript expression over the compiled package P, value Go's semantics gives): the replay
 
@@ -910,6 +911,7 @@ func vsink(ss ...S) { ss[0].x = 99; if len(ss) > 1 { ss[1].x = 98 } }
 func psink(p *S) {}
 func wsink(w W) { w.s.x = 99 }
 func (s S) Mut() { s.x = 99 }
+func (a A) AMut() { a[0] = 99 }
 '''
 
 def c07_cases():
@@ -943,6 +945,12 @@ def c07_cases():
     # range over an array value with a value variable: the range expression is evaluated once, i.e. the loop runs over a copy
     C.append(VCase('V_RangeArr', 'func V_RangeArr(a A) int { t := 0; for _, v := range a { a[2] = 100; t += v }; return t }', locals_=('_ref',),
                    check=('P.V_RangeArr([1, 2, 3])', '6')))
+    # a value-receiver method reached through an interface (or a pointer) works on a copy of the receiver: the method
+    # table entries the compiler installs for the types S (proxy to the pointer type's method) and A (primary function)
+    C.append(VCase('V_IfaceRecv', '', table=('S', 'Mut'), methods=('Mut',),
+                   check=('(function(){ var a = new P.S.ptr(1, 2); var b = new P.S(a); b.Mut(); return a.x; })()', '1')))
+    C.append(VCase('V_IfaceRecvArr', '', table=('A', 'AMut'), locals_=('a',),
+                   check=('(function(){ var a = [1, 2, 3]; var b = new P.A(a); b.AMut(); return a[0]; })()', '1')))
     # negative control: pointers are passed as they are
     C.append(VCase('V_PtrPass', 'func V_PtrPass(p *S) int { psink(p); return p.x }', sinks=(), note='control'))
     return C
@@ -1052,7 +1060,7 @@ def run_c07(rep, spec, verbose=False, only=None):
     if only: cases = [c for c in cases if only in c.name]
     if not cases:
         return []
-    gosrc = 'package main\n\nfunc main() {}\n' + C07_PRELUDE_GO + '\n' + '\n'.join(c.gosrc for c in cases) + '\n'
+    gosrc = 'package main\n\nfunc main() {}\n' + C07_PRELUDE_GO + '\n' + '\n'.join(c.gosrc for c in cases if c.gosrc) + '\n'
     with tempfile.TemporaryDirectory(prefix='gvc-pat-') as td:
         keep = os.path.join(td, 'pkg.js')
         out, err = e2e.run(gosrc, 'console.log("compiled")', keep=keep)
@@ -1062,8 +1070,23 @@ def run_c07(rep, spec, verbose=False, only=None):
         dump = run_jsdump([keep])
     emitted = find_emitted(dump['pkg.js']['program'], {c.name for c in cases})
     obls = []
+    def table_entry(prog, ty, meth):
+        hits = []
+        def walk(n):
+            if isinstance(n, list):
+                for x in n: walk(x)
+            elif isinstance(n, dict):
+                if n.get('type') == 'AssignmentExpression' and n['left'].get('type') == 'MemberExpression' and not n['left'].get('computed') \
+                   and n['left']['property'].get('name') == meth and n['left']['object'].get('type') == 'MemberExpression' \
+                   and n['left']['object']['property'].get('name') == 'prototype' and n['left']['object']['object'].get('name') == ty \
+                   and n['right'].get('type') in ('FunctionExpression', 'ArrowFunctionExpression'):
+                    hits.append(n['right'])
+                for k, v in n.items():
+                    if k != 'loc' and isinstance(v, (dict, list)): walk(v)
+        walk(prog)
+        return hits[0] if hits else None
     for c in cases:
-        fn = emitted.get(c.name)
+        fn = table_entry(dump['pkg.js']['program'], *c.table) if c.table else emitted.get(c.name)
         if fn is None:
             rep.undecided.append(('pattern ' + c.name, 'function not found in the emitted package')); continue
         pts = c07_transfer_points(fn, c)
